@@ -312,6 +312,48 @@ pub fn drive(log: &mut Log) {
         }
     }
 
+    // (u) single-symbol alphabets: bits = ceil(log2 1) = 0, so bits*q = 0 <= 64 holds for EVERY q; all codes
+    //     are 0 and the table has one slot. q on both sides of the word size.
+    for &q in &[1u32, 2, 63, 64, 65, 70, 200] {
+        for variant in 0..3u64 {
+            case += 1;
+            if !log.mine(case) {
+                continue;
+            }
+            let mut rng = Rng::new(seed, 55, case);
+            let sym = [b'A', 0u8, 255u8][variant as usize];
+            let alpha = vec![sym];
+            let qs = q as usize;
+            let n = match variant {
+                0 => 200,
+                1 => qs + rng.range(0, 3) as usize,
+                _ => rng.range(0, 260) as usize,
+            };
+            let text = vec![sym; n];
+            let ngrams = if n >= qs { n - qs + 1 } else { 0 };
+            // max_count exactly at / just below the number of windows, and none
+            let max_count: i64 = match (q + variant as u32) % 3 {
+                0 => -1,
+                1 => ngrams as i64,
+                _ => (ngrams as i64 - 1).max(0),
+            };
+            let patterns: Vec<Vec<u8>> = vec![
+                vec![sym; qs + 2],
+                vec![sym; qs],
+                vec![sym; qs.saturating_sub(1)],
+                vec![sym; n],
+                vec![],
+            ];
+            let c = IndexCase { alpha: alpha.clone(), q, text, max_count, patterns, grams: vec![vec![sym; qs]] };
+            index_run(log, "un", &c);
+            codes_run(log, &mut rng, &alpha, q);
+            if q > 64 {
+                log.oblige("unary_alphabet_q_above_64");
+            }
+            log.oblige("unary_alphabet");
+        }
+    }
+
     // (c) codes only: up to the full machine word
     let combos: [(usize, u32); 14] = [
         (1, 1), (1, 5), (2, 1), (2, 30), (2, 31), (2, 64), (3, 2), (3, 32), (4, 32), (5, 21), (7, 10),
